@@ -46,7 +46,62 @@ struct Produced {
     txname: String,
 }
 
+/// a random well-formed IR tree: what an untrusted client may put on the wire
+fn produce_random(t: &mut Tape, world_no: u64) -> Produced {
+    let closed = t.chance(1, 3);
+    let depth = 1 + t.draw(6) as u32;
+    let tx = {
+        let mut g = crate::gen_tir::TirGen {
+            t: &mut *t,
+            params: vec![],
+            queries: Default::default(),
+            inputs: vec![],
+            closed,
+        };
+        g.tx(depth)
+    };
+    let mut args = ArgMap::new();
+    for (k, ty) in tx3_tir::reduce::find_params(&tx) {
+        let v = match ty {
+            Type::Int => ArgValue::Int(int_boundary(t)),
+            Type::Bool => ArgValue::Bool(t.chance(1, 2)),
+            Type::Bytes => {
+                let n = *t.pick(&[28usize, 0, 5, 32]);
+                ArgValue::Bytes(t.bytes(n))
+            }
+            Type::Address => ArgValue::Address(addr_for(0, false, t.chance(1, 2))),
+            Type::UtxoRef => ArgValue::UtxoRef(crate::gen_tir::some_ref(t)),
+            Type::Undefined => ArgValue::String("x".into()),
+            _ => ArgValue::Int(1),
+        };
+        args.insert(k, v);
+    }
+    let mut inputs: BTreeMap<String, HashSet<Utxo>> = BTreeMap::new();
+    for (q, _) in tx3_tir::reduce::find_queries(&tx) {
+        let mut set = HashSet::new();
+        set.insert(crate::gen_tir::some_utxo(t, 1));
+        inputs.insert(q, set);
+    }
+    Produced {
+        name: format!("random-ir-{world_no}"),
+        source: format!("<random IR tree, depth {depth}, {}>", if closed { "closed" } else { "open" }),
+        tx,
+        stage: "random-tree",
+        args,
+        inputs,
+        program: None,
+        txname: "tx".into(),
+    }
+}
+
 fn produce(t: &mut Tape, world_no: u64, rep: &mut WorldReport) -> Option<Produced> {
+    if t.chance(1, 4) {
+        return Some(produce_random(t, world_no));
+    }
+    produce_generated(t, world_no, rep)
+}
+
+fn produce_generated(t: &mut Tape, world_no: u64, rep: &mut WorldReport) -> Option<Produced> {
     let examples = crate::p_entropy::example_sources();
     let use_example = !examples.is_empty() && t.chance(1, 6);
     let (name, source, program) = if use_example {
@@ -390,7 +445,19 @@ fn inner_c11(world_no: u64, t: &mut Tape, rep: &mut WorldReport) {
                         let x = tx3_tir::reduce::apply_fees(x, 250_000).map_err(|e| format!("{e:?}"))?;
                         let x = tx3_tir::reduce::apply_inputs(x, &inputs).map_err(|e| format!("{e:?}"))?;
                         let x = tx3_tir::reduce::reduce(x).map_err(|e| format!("{e:?}"))?;
-                        Ok(canon_bytes(&x))
+                        let mut out = canon_bytes(&x);
+                        // "after identical application the same transaction": fields that the serialised
+                        // form cannot show (skipped or defaulted ones) still show in what the compiler emits
+                        use tx3_tir::compile::Compiler as _;
+                        use tx3_tir::reduce::Apply as _;
+                        if x.is_constant() {
+                            let mut c = crate::rsim::make_compiler(&crate::rsim::PPCfg::plain());
+                            match c.compile(&AnyTir::V1Beta0(x)) {
+                                Ok(tx) => out.extend(tx.payload),
+                                Err(e) => out.extend(format!("compile error {}", crate::rsim::first_ident(&format!("{e:?}"))).into_bytes()),
+                            }
+                        }
+                        Ok(out)
                     })
                 };
                 let (a, b) = (apply(&prod.tx), apply(&back));
@@ -404,11 +471,20 @@ fn inner_c11(world_no: u64, t: &mut Tape, rep: &mut WorldReport) {
                         "C11",
                         "W3-apply",
                         prod.stage,
-                        format!("`{}`/{}: identical application of the original and the round-tripped TIR gives different results", prod.name, prod.txname),
+                        format!(
+                            "`{}`/{}: identical application of the original and the round-tripped TIR gives different results: {} vs {}",
+                            prod.name,
+                            prod.txname,
+                            match &a { Ok(Ok(_)) => key(&a), Ok(Err(e)) => format!("Err({})", e.chars().take(160).collect::<String>()), Err(p) => format!("panic {}", p.site()) },
+                            match &b { Ok(Ok(_)) => key(&b), Ok(Err(e)) => format!("Err({})", e.chars().take(160).collect::<String>()), Err(p) => format!("panic {}", p.site()) },
+                        ),
                     );
                 }
                 if let Err(p) = &a {
-                    rep.violate("C14", "P1-panic", p.site(), format!("apply/reduce panicked: {}", p.message));
+                    rep.violate("C14", "P1-panic", p.site(), format!("apply/reduce panicked at {}:{}: {}", p.file, p.line, p.message));
+                }
+                if prod.stage == "random-tree" {
+                    back_end_stratum(t, rep, &back, &prod);
                 }
             } else {
                 outcome = "Ok (damaged but decodable)".into();
@@ -485,6 +561,97 @@ fn back_end_stratum(t: &mut Tape, rep: &mut WorldReport, tx: &tir::Tx, prod: &Pr
         Outcome::Hung(s) => rep.violate("C14", "P3-hang", "resolve_tx", format!("resolving a decodable IR: {s}")),
         _ => {}
     }
+}
+
+/// C14 only: a random IR tree a client may send goes through apply, reduce and the resolver
+pub fn world_ir(_tier: Tier, world_no: u64, mut tape: Tape) -> WorldReport {
+    let s1 = 1 + tape.draw(1 << 32);
+    crate::entropy::in_world(s1, move || {
+        let mut rep = WorldReport {
+            world: world_no,
+            ..Default::default()
+        };
+        let mut tape = tape;
+        let r = guarded(|| {
+            let t = &mut tape;
+            // either a fully random tree, or a valid lowered template with one random graft
+            // (so that the anomaly reaches the deep paths of apply / reduce / compile)
+            let mut scratch = WorldReport::default();
+            let prod = if t.chance(1, 2) {
+                produce_random(t, world_no)
+            } else {
+                match produce_generated(t, world_no, &mut scratch) {
+                    Some(mut p) => {
+                        let n = 1 + t.index(2);
+                        for _ in 0..n {
+                            let mut g = crate::gen_tir::TirGen {
+                                t: &mut *t,
+                                params: vec![],
+                                queries: Default::default(),
+                                inputs: vec![],
+                                closed: true,
+                            };
+                            match g.t.draw(6) {
+                                0 | 1 | 2 => {
+                                    let a = g.adhoc(2);
+                                    p.tx.adhoc.push(a);
+                                }
+                                3 => {
+                                    if let Some(o) = p.tx.outputs.first_mut() {
+                                        o.datum = g.expr(3);
+                                    }
+                                }
+                                4 => {
+                                    let (k, v) = (g.expr(1), g.expr(2));
+                                    p.tx.metadata.push(tir::Metadata { key: k, value: v });
+                                }
+                                _ => {
+                                    let e = g.expr(2);
+                                    p.tx.signers = Some(tir::Signers { signers: vec![e] });
+                                }
+                            }
+                        }
+                        p.stage = "valid-template-with-random-graft";
+                        p
+                    }
+                    None => produce_random(t, world_no),
+                }
+            };
+            let tx = prod.tx.clone();
+            let (args, inputs) = (prod.args.clone(), prod.inputs.clone());
+            let staged = guarded(move || -> Result<(), String> {
+                let x = tx3_tir::reduce::apply_args(tx, &args).map_err(|e| format!("{e:?}"))?;
+                let x = tx3_tir::reduce::apply_fees(x, 180_000).map_err(|e| format!("{e:?}"))?;
+                let x = tx3_tir::reduce::reduce(x).map_err(|e| format!("{e:?}"))?;
+                let x = tx3_tir::reduce::apply_inputs(x, &inputs).map_err(|e| format!("{e:?}"))?;
+                let _ = tx3_tir::reduce::reduce(x).map_err(|e| format!("{e:?}"))?;
+                Ok(())
+            });
+            let mut rep2 = WorldReport::default();
+            if let Err(p) = &staged {
+                rep2.violate("C14", "P1-panic", p.site(), format!("apply/reduce of a client-supplied IR panicked at {}:{}: {}", p.file, p.line, p.message));
+            }
+            back_end_stratum(t, &mut rep2, &prod.tx, &prod);
+            let mut d = crate::tape::Digest::default();
+            d.bytes(&tx3_tir::encoding::to_bytes(&prod.tx).0);
+            (rep2, d.0, prod.source.clone(), format!("{:?}", staged.as_ref().map(|r| r.as_ref().map(|_| "Ok").map_err(|e| e.chars().take(80).collect::<String>())).map_err(|p| p.site())))
+        });
+        match r {
+            Ok((rep2, digest, what, staged)) => {
+                rep.violations = rep2.violations;
+                rep.fired = rep2.fired;
+                rep.digest = digest;
+                rep.sig = crate::tape::mix_str(1, &staged.chars().take(16).collect::<String>());
+                rep.nontrivial = true;
+                rep.evaluations = 2;
+                rep.events = 2;
+                rep.sample = Some(json!({"engine": "wire-sim (client-supplied IR to the back end)", "ir": what, "apply_reduce": staged}));
+            }
+            Err(p) => rep.harness_error = Some(format!("harness panic: {} at {}:{}", p.message, p.file, p.line)),
+        }
+        rep.tape = tape.data.clone();
+        rep
+    })
 }
 
 // ================================================================ C16
